@@ -55,6 +55,10 @@ CHECKS = {
    text="Workloads (inserts, overwrites, deletes, memory evictions, wait) with held io and generated completion order; crash points are enumerated: an image after every completed device write plus every page-subset tear (all subsets for <= 3 pages, generated masks beyond) of every write in flight at that moment; every image is reopened in quiet mode and all keys read (validity; durability of acknowledged ops while nothing is reclaimed before or after the restart); selected images get a restart cycle with a second workload, flush, read-back and a second crash.",
    note="Blob index is one page (default), so a page-granular tear cannot split an index rewrite. The device applies a completed write atomically and loses in-flight writes; completed writes are never reordered. 'Acknowledged' = a wait() issued after the op was handed to the disk tier has resolved.",
    technique="crash-point and torn-write enumeration over generated workloads on a simulated device (proptest-generated workloads, enumerated faults)"),
+ "C03": dict(engine="hybsim", category="fault_enumeration", design="§5 C03",
+   text="Generated workloads (1-3 page and tiny values, overwrites, deletes, none/zstd/lz4, tombstone log on/off, 4-8 blocks so most workloads wrap the device) produce device images; faults are enumerated for every page of the image incl. the tombstone log: zero page, all-ones page, two bit flips (one inside the first 64 bytes = header/checksum/count fields), swap within the block, swap across partitions and with the first tombstone page, older generations of the same page; plus generated multi-fault sets. Every fault is served to the running store (live index, load path) and applied to an image that is reopened in quiet mode; then every key is read. Oracle: no panic (catch_unwind), each read is a miss, an error or bit-exactly a version really inserted for that key.",
+   note="A 64-bit xxhash collision is not searched for. A process abort (allocation failure) cannot be caught in-process: it would surface as a broken (aborted) check run, which is how the Vec::with_capacity abort was found. Byte-level mutation of single entries / blob indexes is the fuzz targets' job.",
+   technique="fault enumeration over device images produced by generated workloads (proptest workloads, enumerated per-page faults, explicit validity oracle)"),
 }
 
 NOT_YET = {
@@ -98,7 +102,7 @@ def main():
         "engines": [
             {"name": "memsim", "path": "/verif/harness/core/src/memsim.rs", "serves_properties": ["C05", "C13", "C14", "C16", "C17", "C18"],
              "kind_free_text": "single-threaded interpreter for foyer::Cache histories + event-driven reference model (memoracle.rs) + eviction reference models (evmodel.rs)"},
-            {"name": "hybsim", "path": "/verif/harness/core/src/hybsim.rs", "serves_properties": ["C01", "C04", "C10", "C12", "C15", "C17"],
+            {"name": "hybsim", "path": "/verif/harness/core/src/hybsim.rs", "serves_properties": ["C01", "C03", "C04", "C10", "C12", "C15", "C17"],
              "kind_free_text": "deterministic interpreter for HybridCache histories on a simulated device/io engine (simdev.rs) with harness-owned io completion order; oracles in hyboracle.rs; independent format reader fmtparse.rs"},
             {"name": "fetchsim", "path": "/verif/harness/core/src/fetchsim.rs", "serves_properties": ["C06", "C11", "C17"],
              "kind_free_text": "manual executor for get_or_fetch histories: harness futures for disk lookup / origin fetch, harness-driven runtime, protocol state machine as oracle"},
